@@ -12,7 +12,9 @@ from ..astutil import (ERROR_CLASSES, Locals, anon, call_name, cfg_of, construct
 from ..jinja_interp import expr_text
 from ..cfg import CFG, walk_own
 from ..core import PKG, Report
-from .registries import _bind_call, _inline_locals, check_module_files, check_registries, receiver_classes
+from .registries import (ATTR_REGISTRIES, _bind_call, _Compat, _inline_locals, _reg_of, _registry_stores, check_module_files, check_registries,
+                         membership_tests, receiver_classes, registry_scope, same_key)
+from ..astutil import terminals
 
 LEVEL = ("error discipline and accounting over all paths: no value whose static type includes a ParseError/PropertyError is "
          "discarded; every path through one iteration of a loop over items of the document (operations, component schemas, response "
@@ -23,7 +25,9 @@ LEVEL = ("error discipline and accounting over all paths: no value whose static 
          "error lists are concatenated up to the CLI and the collections that carry the per-operation diagnostics are handed on entire "
          "(accumulator -> result of from_data -> GeneratorData, no filtered copy, no removal); the method list equals the Operation "
          "fields of PathItem; one iteration over enumerated items reads its own item only, never another entry of the collection it "
-         "goes through; the mapping handed to GeneratorData.from_dict is, entire, what the loading call returned.  Comprehensions over "
+         "goes through; the mapping handed to GeneratorData.from_dict is, entire, what the loading call returned; an object that carries "
+         "diagnostics (a field declared list of errors) copied field by field or evolved keeps all of them; a function that registers "
+         "under a key of a class registry and asks whether the key is taken ends in an error on every path on which it is.  Comprehensions over "
          "document items are read as the loops they abbreviate (a per-item local function / private helper as the loop body); a "
          "generator's `yield` hands a value on like `return`.")
 
@@ -61,25 +65,35 @@ def run(rep: Report, ctx: Any) -> str:
                        "what the loading call returned (any local name, a whole copy) - no call in between that takes the loaded mapping "
                        "and returns another, no filtered copy, no removal; from_dict does not re-bind or prune its document parameter")
 
+    rep.rule("R07.11", "a copy keeps the diagnostics recorded so far: where an object of a class that carries diagnostics (a field declared as "
+                       "a list of errors) is built from the fields of an existing object of that class - C(f=S.f, g=copy(S.g), ...) - or "
+                       "derived from one with that field replaced - evolve(S, errors=...) -, the new list of diagnostics contains all of "
+                       "the old one")
+
+    rep.rule("R07.12", "a key that is taken is never silently shared: in a function that registers an artefact under key K of a registry "
+                       "of classes (classes_by_name / classes_by_reference) and asks whether K is taken (K in registry, registry.get(K), "
+                       "a private helper that asks), every path on which K is taken ends - from the question on - in an error return or "
+                       "a raise, whatever else is found out about the entry that holds the key")
+
     # ---- R07.1 -------------------------------------------------------------------------------------------------------
-    returns_err = set()
+    returns_err: dict[str, list[Any]] = {}
     for f in ix.all_functions:
         ann = norm(f.node.returns) if f.node.returns is not None else ""
         if any(e in ann for e in ERROR_CLASSES):
-            returns_err.add(f.name)
+            returns_err.setdefault(f.name, []).append(f)
     rep.floor("functions_returning_errors", len(returns_err), 20)
     n_calls = 0
     for f in ix.all_functions:
         for st in ast.walk(f.node):
             if isinstance(st, ast.Expr) and isinstance(st.value, ast.Call):
                 cn = call_name(st.value).rsplit(".", 1)[-1]
-                if cn in returns_err and cn not in ("append", "extend"):
+                if cn not in ("append", "extend") and _may_denote(ix, f, st.value, returns_err.get(cn, [])):
                     n_calls += 1
                     rep.fail("R07.1", f"{short(f)}::discarded {cn}()", f"the result of `{norm(st.value)[:60]}` (may be an error) is discarded",
                              where(f, st))
             if isinstance(st, ast.Assign) and isinstance(st.value, ast.Call):
                 cn = call_name(st.value).rsplit(".", 1)[-1]
-                if cn not in returns_err:
+                if not _may_denote(ix, f, st.value, returns_err.get(cn, [])):
                     continue
                 n_calls += 1
                 names = [t.id for t in st.targets if isinstance(t, ast.Name)]
@@ -307,6 +321,52 @@ def run(rep: Report, ctx: Any) -> str:
     rep.check(why_in is None, "R07.10", "GeneratorData.from_dict::document-untouched", "from_dict re-binds or prunes the document it was handed "
               "before validating it", where(gd, gd.node), lhs=why_in, rhs=f"`{doc_param}` is read, never re-bound, nothing removed from it")
 
+    # ---- R07.12 -----------------------------------------------------------------------------------------------------------------------
+    n_present = 0
+    # keyed by who registers (the class of the builder, or the module of a plain function) and where: moving the registration into
+    # a private helper of the same class / module, or spelling the key another way, leaves the key of the finding alone
+    verdicts: dict[str, list[tuple[Any, ast.AST, list[ast.AST]]]] = {}
+    for f in registry_scope(ix):
+        seen_keys: list[tuple[str, ast.AST]] = []
+        for st, reg, key, kind, value in _registry_stores(f, ATTR_REGISTRIES):
+            if any(r == reg and same_key(k, key, f.node) for r, k in seen_keys):
+                continue
+            seen_keys.append((reg, key))
+            asked = [t for t, k in membership_tests(f, reg, ix) if same_key(k, key, f.node)]
+            if not asked:
+                continue  # whether the key is present is not asked here: R07.4 looks for the question where the function is called from
+            n_present += 1
+            owner = f.module.name[len(PKG) + 1:] + (f".{f.cls.name}" if f.cls is not None else "")
+            verdicts.setdefault(f"{owner}::taken-key-diagnosed {reg}", []).append((f, st, _silent_when_present(ix, f, reg, key, asked)))
+    for ckey, vs in sorted(verdicts.items()):
+        f, st, bad = next((v for v in vs if v[2]), vs[0])
+        rep.check(not bad, "R07.12", ckey,
+                  f"{short(f)} registers an artefact under a key of the registry and asks whether the key is taken, yet with the key taken "
+                  "it can still return something other than an error: a second document item that derives the same key is merged "
+                  "into (or replaces) the first one and no diagnostic names either", where(f, bad[0] if bad else st),
+                  lhs=[f"{norm(b)[:60]} @ line {getattr(b, 'lineno', 0)}" for b in bad], rhs="with the key present, every path from the question on ends in an error return / raise")
+    rep.floor("registering_functions_that_ask", n_present, 1)
+
+    # ---- R07.11 -----------------------------------------------------------------------------------------------------------------------
+    n_copies = 0
+    carriers = _diagnostic_carriers(ix)
+    rep.require(carriers, "a class of the parser with a field declared as a list of errors")
+    for f in ix.all_functions:
+        if not (f.module.name.startswith(f"{PKG}.parser") or f.module.name == PKG):
+            continue
+        for c, cname, src, given in _copies(ix, f, carriers):
+            for acc in carriers[cname]:
+                if src is None or (acc not in given and given.get("<whole>") is not None):
+                    continue  # evolve(S, ...) that leaves the accumulator alone keeps it
+                n_copies += 1
+                v = given.get(acc)
+                have = _elements(_through_copies(v), f.node, _loop_env(f.node, c)) if v is not None else set()
+                rep.check(f"{src}.{acc}" in have, "R07.11", f"{short(f)}::copy of {cname} keeps {acc} [{anon(ast.parse(src, mode='eval').body, local_names(f.node))}]",
+                          f"a {cname} is built from the fields of an existing one and its list of diagnostics `{acc}` is not handed over entire: "
+                          "what was recorded on the original so far is lost with it", where(f, c),
+                          lhs=norm(v)[:70] if v is not None else f"no `{acc}=`", rhs=f"{acc}=<all of {src}.{acc}> (the list, a copy, or a list that contains it)")
+    rep.floor("diagnostic_carrier_copies", n_copies, 0)  # such copies may legitimately not exist: nothing to guard against
+
     b = ix.func("Project.build")
     rets = [n for n in ast.walk(b.node) if isinstance(n, ast.Return)]
     rep.check(any(norm(_inline_locals(r.value, b.node)) == "self._get_errors()" for r in rets if r.value is not None), "R07.5", "Project.build::returns-errors",
@@ -333,9 +393,9 @@ def run(rep: Report, ctx: Any) -> str:
     tags_assign = [n for n in ast.walk(fd.node) if isinstance(n, ast.Assign) and norm(n.targets[0]) == tagv]
     rep.require(tags_assign, "tags assignment in from_data")
     first = tags_assign[0]
-    ok = _nonempty(first.value)
+    ok = _nonempty(first.value, None, ix, fd)
     for a in tags_assign[1:]:
-        ok = ok and _nonempty(a.value, {tagv})
+        ok = ok and _nonempty(a.value, {tagv}, ix, fd)
     rep.check(ok, "R07.6", "EndpointCollection.from_data::tags-non-empty",
               "the list of tags of an operation can be empty (e.g. `tags: []`): the operation is attached to no collection and vanishes "
               "with its diagnostics", where(fd, first), lhs=[norm(a.value)[:70] for a in tags_assign], rhs="provably non-empty")
@@ -372,21 +432,230 @@ def run(rep: Report, ctx: Any) -> str:
     # method list exhaustive
     pi = ix.cls("PathItem")
     ops = sorted(f_ for f_, ann in ix.all_fields(pi).items() if ann is not None and "Operation" in norm(ann))
-    meth = None
-    dl = Locals(fd.node)
-    for lp in ast.walk(fd.node):
-        # the method loop: its variable is the attribute name read from the path item with getattr
-        if isinstance(lp, ast.For) and isinstance(lp.target, ast.Name) and any(
-                isinstance(c, ast.Call) and call_name(c) == "getattr" and len(c.args) >= 2 and norm(c.args[1]) == lp.target.id for c in ast.walk(lp)):
-            for v in ([lp.iter] if not isinstance(lp.iter, ast.Name) else dl.values_of(lp.iter.id)):
+    # the method loop (in from_data or in a private helper it delegates the enumeration to): its variable is the attribute name read
+    # from the path item with getattr; what it goes through is a literal, a local or a constant of the module bound to one
+    meths: list["list[str] | None"] = []
+    for g in region(ix, fd):
+        gl = Locals(g.node)
+        for lp in _method_loops(g):
+            vals = [lp.iter] if not isinstance(lp.iter, ast.Name) else (gl.values_of(lp.iter.id) or [g.module.variables.get(lp.iter.id)])
+            for v in vals:
                 try:
-                    meth = sorted(ast.literal_eval(v))
+                    meths.append(sorted(ast.literal_eval(v)))
                 except Exception:  # noqa: BLE001
-                    meth = None
+                    meths.append(None)
+    meth = next((m for m in meths if m != ops), ops) if meths else None
     rep.check(meth == ops, "R07.6", "EndpointCollection.from_data::methods-exhaustive",
               f"the method list {meth} differs from the Operation fields of PathItem {ops}", where(fd, fd.node), lhs=meth, rhs=ops)
     rep.not_decided.append("the census itself; response media types other than the first supported one are ignored by design")
     return LEVEL
+
+
+# ---- a key that is taken ---------------------------------------------------------------------------------------------------------------
+class _Asks(_Compat):
+    """registries._Compat (evaluation of a function's tests with the registered entry present), where a private helper takes part
+    in the decision as soon as it asks the registry anything (membership, a lookup) - not only when it asks for the entry's kind"""
+
+    def asks(self) -> bool:
+        if super().asks():
+            return True
+        for n in _own_walk(self.fn):
+            if isinstance(n, ast.Compare) and len(n.ops) == 1 and isinstance(n.ops[0], (ast.In, ast.NotIn)) and \
+                    _reg_of(n.comparators[0], ATTR_REGISTRIES, self.aliases):
+                return True
+            if self.is_existing(n):
+                return True
+        return False
+
+    def helper(self, e: ast.AST) -> "_Compat | None":
+        hops = 0
+        while isinstance(e, ast.Name) and e.id in self.once and hops < 3:
+            e, hops = self.once[e.id], hops + 1
+        h = self.helpers.get(call_name(e).rsplit(".", 1)[-1]) if isinstance(e, ast.Call) else None
+        if h is None:
+            return None
+        if h.name not in self._sub:
+            self._sub[h.name] = _Asks(self.ix, h, self.cname, self.depth - 1)
+        sub = self._sub[h.name]
+        return sub if sub.asks() else None
+
+
+class _Taken(_Asks):
+    """_Asks with the membership tests of the function itself read by registry and key: `K in reg` holds for the key at hand, a
+    test about another key or another registry is not decided"""
+
+    def __init__(self, ix: Any, g: Any, reg: str, key: ast.AST) -> None:
+        super().__init__(ix, g, g.cls.name if g.cls is not None else "")
+        self.reg, self.key = reg, key
+
+    def ev(self, t: ast.expr, own: bool, differ: bool, depth: int = 3) -> "bool | None":
+        if isinstance(t, ast.Compare) and len(t.ops) == 1 and isinstance(t.ops[0], (ast.In, ast.NotIn)):
+            r = _reg_of(t.comparators[0], ATTR_REGISTRIES, self.aliases)
+            if r:
+                return isinstance(t.ops[0], ast.In) if r == self.reg and same_key(t.left, self.key, self.fn) else None
+        return super().ev(t, own, differ, depth)
+
+
+def _silent_when_present(ix: Any, f: Any, reg: str, key: ast.AST, asked: list[ast.stmt]) -> list[ast.AST]:
+    """the statements that end f with something other than an error although `key` is present in `reg`: reachable from where the
+    question is asked, under every assumption about what else is true of the entry (its kind, its content)"""
+    cp = _Taken(ix, f, reg, key)
+    cfg = CFG(f.node)
+    after: set[object] = set()
+    for st in asked:
+        after |= cfg.reachable_from(st)
+    bad: list[ast.AST] = []
+    for own in (False, True):
+        for differ in (False, True):
+            errs = error_names(f.node) | {name for name, v in cp.once.items() if isinstance(v, ast.Call) and cp.helper(v) is not None
+                                          and cp.helper(v).results(own, differ) <= {"E"}}
+            terms, falls = terminals(f.node.body, lambda t, own=own, differ=differ: cp.ev(t, own, differ))
+            for t in sorted(terms, key=lambda n: n.lineno):
+                if t in after and not (isinstance(t, ast.Raise) or returns_error(t, errs)) and t not in bad:
+                    bad.append(t)
+            if falls and f.node not in bad:
+                bad.append(f.node)
+    return bad
+
+
+# ---- copies of objects that carry diagnostics --------------------------------------------------------------------------------------------
+_COPYING = {"deepcopy", "copy", "set", "list", "dict", "tuple", "sorted", "frozenset"}
+
+
+def _through_copies(e: "ast.AST | None") -> "ast.AST | None":
+    """the value behind copy(x) / deepcopy(x) / list(x) / x.copy(): the same elements"""
+    while isinstance(e, ast.Call):
+        if call_name(e).rsplit(".", 1)[-1] in _COPYING and len(e.args) == 1 and not e.keywords:
+            e = e.args[0]
+        elif isinstance(e.func, ast.Attribute) and e.func.attr == "copy" and not e.args:
+            e = e.func.value
+        else:
+            break
+    return e
+
+
+def _diagnostic_carriers(ix: Any) -> dict[str, list[str]]:
+    """class name -> its fields declared as a list of errors (the diagnostics recorded on the object)"""
+    out: dict[str, list[str]] = {}
+    for c in ix.classes.values():
+        if not (c.module.name.startswith(f"{PKG}.parser") or c.module.name == PKG):
+            continue
+        for fld, ann in ix.all_fields(c).items():
+            if isinstance(ann, ast.Constant) and isinstance(ann.value, str):
+                try:
+                    ann = ast.parse(ann.value, mode="eval").body
+                except SyntaxError:
+                    continue
+            if isinstance(ann, ast.Subscript) and norm(ann.value).rsplit(".", 1)[-1] in ("list", "List") and \
+                    (dotted_name(ann.slice) or "").rsplit(".", 1)[-1] in ERROR_CLASSES:
+                out.setdefault(c.name, []).append(fld)
+    return out
+
+
+def _copies(ix: Any, f: Any, carriers: dict[str, list[str]]) -> list[tuple[ast.Call, str, "str | None", dict[str, Any]]]:
+    """(call, class, source, keyword -> value) for the calls in f that make an object of a diagnostics-carrying class out of an
+    existing one: C(k=S.k, ...) with at least two fields read (possibly through copy / deepcopy / list ...) from the same-named fields
+    of one object S of class C; evolve(S, k=...) / replace(S, k=...) on an S of class C (marked by the key `<whole>`)"""
+    out: list[tuple[ast.Call, str, str | None, dict[str, Any]]] = []
+    for c in _own_walk(f.node):
+        if not isinstance(c, ast.Call):
+            continue
+        last = call_name(c).rsplit(".", 1)[-1]
+        kws = {k.arg: k.value for k in c.keywords if k.arg}
+        whole = _through_copies(c.args[0]) if last in ("evolve", "replace") and c.args else None
+        if whole is not None and dotted_name(whole):
+            for cname in sorted(receiver_classes(ix, f, whole) & set(carriers)):
+                out.append((c, cname, dotted_name(whole), {**kws, "<whole>": whole}))
+            continue
+        cname = f.cls.name if last == "cls" and f.cls is not None else last
+        if cname not in carriers:
+            continue
+        by_src: dict[str, list[str]] = {}
+        for k, v in kws.items():
+            v = _through_copies(v)
+            if isinstance(v, ast.Attribute) and v.attr == k and dotted_name(v.value):
+                by_src.setdefault(dotted_name(v.value), []).append(k)
+        for src, ks in sorted(by_src.items()):
+            root = ast.parse(src, mode="eval").body
+            if len(ks) >= 2 and cname in receiver_classes(ix, f, root):
+                out.append((c, cname, src, kws))
+    return out
+
+
+# ---- which function a call denotes ------------------------------------------------------------------------------------------------------
+_BUILTIN_CONTAINERS = {"set", "frozenset", "dict", "list", "tuple", "str", "bytes", "Set", "FrozenSet", "Dict", "List", "Tuple", "Sequence",
+                       "Mapping", "MutableMapping", "MutableSet", "MutableSequence", "Iterable", "Iterator", "defaultdict", "OrderedDict",
+                       "Counter", "deque"}
+
+
+def _builtin_annotation(ann: "ast.AST | None") -> bool:
+    """the annotation names nothing but built-in containers / strings (Optional[...] and unions of such alike): whatever the value
+    is, it is not an instance of a class of the repository"""
+    if ann is None:
+        return False
+    if isinstance(ann, ast.Constant) and isinstance(ann.value, str):
+        try:
+            ann = ast.parse(ann.value, mode="eval").body
+        except SyntaxError:
+            return False
+    if isinstance(ann, ast.Constant) and ann.value is None:
+        return True
+    if isinstance(ann, ast.BinOp) and isinstance(ann.op, ast.BitOr):
+        return _builtin_annotation(ann.left) and _builtin_annotation(ann.right)
+    if isinstance(ann, ast.Subscript):
+        head = norm(ann.value).rsplit(".", 1)[-1]
+        if head in ("Optional", "Union"):
+            parts = ann.slice.elts if isinstance(ann.slice, ast.Tuple) else [ann.slice]
+            return all(_builtin_annotation(p_) for p_ in parts)
+        return head in _BUILTIN_CONTAINERS
+    return isinstance(ann, (ast.Name, ast.Attribute)) and norm(ann).rsplit(".", 1)[-1] in _BUILTIN_CONTAINERS
+
+
+def _builtin_value(ix: Any, f: Any, e: ast.AST, depth: int = 3) -> bool:
+    """the value of e is known to be a built-in container: a display, a comprehension, the result of a built-in constructor or of a
+    function of the repository declared to return one, a parameter / local declared as one, a local bound to nothing but such values"""
+    if depth <= 0:
+        return False
+    if isinstance(e, (ast.Set, ast.Dict, ast.List, ast.Tuple, ast.ListComp, ast.SetComp, ast.DictComp, ast.JoinedStr)):
+        return True
+    if isinstance(e, ast.Call):
+        if isinstance(e.func, ast.Name) and e.func.id in _BUILTIN_CONTAINERS:
+            return True
+        last = call_name(e).rsplit(".", 1)[-1]
+        called = [g for g in ix.all_functions if g.name == last]
+        return bool(called) and all(_builtin_annotation(g.node.returns) for g in called)
+    if isinstance(e, ast.BoolOp):
+        return all(_builtin_value(ix, f, v, depth) for v in e.values)
+    if isinstance(e, ast.IfExp):
+        return _builtin_value(ix, f, e.body, depth) and _builtin_value(ix, f, e.orelse, depth)
+    if isinstance(e, ast.Name):
+        for x in f.params:
+            if x.arg == e.id:
+                return _builtin_annotation(x.annotation)
+        anns = [n.annotation for n in _own_walk(f.node) if isinstance(n, ast.AnnAssign) and isinstance(n.target, ast.Name) and n.target.id == e.id]
+        if anns:
+            return all(_builtin_annotation(a_) for a_ in anns)
+        ds = Locals(f.node).defs.get(e.id, [])
+        return bool(ds) and all(k == "assign" and v is not None and _builtin_value(ix, f, v, depth - 1) for k, _, v in ds)
+    return False
+
+
+def _may_denote(ix: Any, f: Any, call: ast.Call, cands: list[Any]) -> bool:
+    """the call can be a call of one of `cands` (functions of one name).  A function or a closure is called by its name; a method is
+    called on a receiver, and the call is one of C.m only if the receiver can be an instance of C: `K.m(...)` on another class K of
+    the repository, or `seen.m(x)` on a receiver known to be a built-in container (declared so, bound to a display / a built-in
+    constructor / the result of a function declared to return one), calls something else.  A receiver about which nothing, or not
+    everything, is known counts as a call."""
+    if not cands:
+        return False
+    if not isinstance(call.func, ast.Attribute) or any(g.cls is None for g in cands):
+        return True  # by name; module.function(...)
+    recv = call.func.value
+    classes = {k.name: k for k in ix.classes.values()}
+    head = dotted_name(recv)
+    if head in classes:
+        return any(g.cls in ix.mro(classes[head]) for g in cands)
+    return not _builtin_value(ix, f, recv)
 
 
 # ---- what a function returns, through the private helpers whose result it returns ----------------------------------------------------
@@ -760,13 +1029,20 @@ def _text_sources(e: ast.AST | None, fn: ast.AST, depth: int = 4, _seen: "set[st
     return set()
 
 
-def _writes_label(fn: ast.AST, helpers: dict[str, Any], n: object, who: str, need: list[set[str]], attrs: tuple[str, ...] = ("header",)) -> bool:
+def _writes_label(fn: ast.AST, helpers: dict[str, Any], n: object, who: str, need: list[set[str]], attrs: tuple[str, ...] = ("header",),
+                  via: "set[str] | None" = None) -> bool:
     """statement n of fn writes into a text attribute of the error held by local `who` a string computed from (a name of each set
-    of) `need`: in place, or by calling a private helper that is handed the error and writes, into the text of the parameter that
-    receives it, a string computed from parameters that receive such names"""
+    of) `need`: in place (`who.header = ..`, or `rec.<field>.header = ..` through a record `rec` of `via` that was built from the
+    error), or by calling a private helper that is handed the error and writes, into the text of the parameter that receives it, a
+    string computed from parameters that receive such names"""
+    def holder(t: ast.AST) -> bool:
+        if isinstance(t, ast.Name):
+            return t.id == who
+        return bool(via) and isinstance(t, ast.Attribute) and isinstance(t.value, ast.Name) and t.value.id in (via or set())
+
     if isinstance(n, (ast.Assign, ast.AugAssign)):
         tgts = n.targets if isinstance(n, ast.Assign) else [n.target]
-        if any(isinstance(t, ast.Attribute) and t.attr in attrs and isinstance(t.value, ast.Name) and t.value.id == who for t in tgts):
+        if any(isinstance(t, ast.Attribute) and t.attr in attrs and holder(t.value) for t in tgts):
             behind = _text_sources(n.value, fn)
             if all(behind & grp for grp in need):
                 return True
@@ -804,17 +1080,34 @@ def _same_object(fn: ast.AST, name: str) -> set[str]:
 
 def _unlabelled_errors(ix: Any, f: Any, need: list[set[str]], cfgs: dict[str, CFG], returned: bool) -> tuple[list[str], int]:
     """(errors that leave f without a header computed from `need`, number of errors that leave f).  An error leaves f by being
-    returned (`returned`) or by being recorded in a list (alone or in a tuple).  Held by a local, it must have been labelled
-    (_writes_label) on every path to that point - or by the very statement, when a helper labels it and hands it back; built in
-    place, its header / detail arguments must be computed from `need`."""
+    returned (`returned`) or by being recorded in a list (alone, in a tuple, or as a field of a record built from it: a local bound
+    to a constructor call / display that is handed the error).  Held by a local, it must have been labelled (_writes_label) on every
+    path to that point - or by the very statement, when a helper labels it and hands it back; built in place, its header / detail
+    arguments must be computed from `need`."""
     cfg = cfg_of(f, cfgs)
     errs = {x for e in error_names(f.node) for x in _same_object(f.node, e)}
     helpers = {g.name: g for g in region(ix, f, depth=1) if g is not f}
     bad: list[str] = []
     n = 0
+    # records that carry an error: local -> the errors it was built from
+    carried: dict[str, set[str]] = {}
+    for name, ds in Locals(f.node).defs.items():
+        if name in errs:
+            continue
+        for kind, _, v in ds:
+            parts = [*v.args, *[k.value for k in v.keywords]] if isinstance(v, ast.Call) and not constructs_error(v) else \
+                list(v.elts) if isinstance(v, (ast.Tuple, ast.List)) else []
+            if kind == "assign":
+                carried.setdefault(name, set()).update(a.id for a in parts if isinstance(a, ast.Name) and a.id in errs)
+    carried = {k: v for k, v in carried.items() if v}
+    for k in list(carried):
+        for alias in _same_object(f.node, k):
+            carried.setdefault(alias, set()).update(carried[k])
 
     def labels(x: object, who: str) -> bool:
-        return any(_writes_label(f.node, helpers, x, w, need) for w in _same_object(f.node, who))
+        same = _same_object(f.node, who)
+        via = {r for r, es in carried.items() if es & same}
+        return any(_writes_label(f.node, helpers, x, w, need, via=via) for w in same)
 
     for st in cfg.stmts():
         leaving: list[ast.AST] = []
@@ -832,6 +1125,8 @@ def _unlabelled_errors(ix: Any, f: Any, need: list[set[str]], cfgs: dict[str, CF
                     for v in ([a0] + (list(a0.elts) if isinstance(a0, (ast.Tuple, ast.List)) else [])):
                         if (isinstance(v, ast.Name) and v.id in errs) or (isinstance(v, ast.Call) and constructs_error(v)):
                             leaving.append(v)
+                        elif isinstance(v, ast.Name) and v.id in carried:
+                            leaving += [ast.copy_location(ast.Name(id=e_, ctx=ast.Load()), v) for e_ in sorted(carried[v.id])]
         for v in leaving:
             n += 1
             if isinstance(v, ast.Name):
@@ -846,14 +1141,22 @@ def _unlabelled_errors(ix: Any, f: Any, need: list[set[str]], cfgs: dict[str, CF
     return bad, n
 
 
-def _unlabelled_endpoint_errors(ix: Any, fd: Any, cfgs: dict[str, CFG]) -> tuple[list[str], int]:
-    """(errors attached to a collection's parse_errors whose header was not computed from the method and the path, number of attachments).
-    Method and path are found by role: the path is the key the loop over the path items yields, the method is the loop variable that
-    selects the operation from the path item (getattr)."""
-    T = _DocTypes(ix, fd)
+def _method_loops(f: Any) -> list[ast.For]:
+    """the loops of f whose variable selects the operation from the path item: the attribute name handed to getattr"""
+    return [lp for lp in _own_walk(f.node) if isinstance(lp, ast.For) and isinstance(lp.target, ast.Name) and any(
+        isinstance(c, ast.Call) and call_name(c) == "getattr" and len(c.args) >= 2 and norm(c.args[1]) == lp.target.id for c in ast.walk(lp))]
+
+
+def _operation_roles(ix: Any, f: Any, depth: int = 2) -> tuple[set[str], set[str]]:
+    """(names of f that hold the path, names of f that hold the method) of the operation an iteration is about.  The path is the key
+    the loop over the path items yields, the method is the loop variable that selects the operation from the path item (getattr).
+    A loop over what a private generator helper yields goes through the same operations: the position at which every `yield` of the
+    helper hands on its own path / method is where the loop receives them."""
+    T = _DocTypes(ix, f)
     path_names: set[str] = set()
-    method_names: set[str] = set()
-    for lp in _own_walk(fd.node):
+    method_names: set[str] = {lp.target.id for lp in _method_loops(f)}
+    helpers = {g.name: g for g in region(ix, f, depth=1) if g is not f} if depth > 0 else {}
+    for lp in _own_walk(f.node):
         if not isinstance(lp, ast.For):
             continue
         if "PathItem" in T.of(lp.iter):
@@ -862,9 +1165,36 @@ def _unlabelled_endpoint_errors(ix: Any, fd: Any, cfgs: dict[str, CFG]) -> tuple
                 path_names |= _targets(lp.target.elts[0])
             elif isinstance(lp.target, ast.Name) and not (isinstance(lp.iter, ast.Call) and isinstance(lp.iter.func, ast.Attribute) and lp.iter.func.attr == "values"):
                 path_names.add(lp.target.id)
-        if isinstance(lp.target, ast.Name) and any(isinstance(c, ast.Call) and call_name(c) == "getattr" and len(c.args) >= 2 and
-                                                   norm(c.args[1]) == lp.target.id for c in ast.walk(lp)):
-            method_names.add(lp.target.id)
+        it = lp.iter
+        while isinstance(it, ast.Call) and call_name(it) in _ELEMENTWISE - {"enumerate"} and len(it.args) == 1:
+            it = it.args[0]
+        g = helpers.get(call_name(it).rsplit(".", 1)[-1]) if isinstance(it, ast.Call) else None
+        if g is None:
+            continue
+        yields = [y.value for y in _own_walk(g.node) if isinstance(y, ast.Yield)]
+        if not yields or any(isinstance(y, ast.YieldFrom) for y in _own_walk(g.node)):
+            continue
+        gp, gm = _operation_roles(ix, g, depth - 1)
+        if isinstance(lp.target, ast.Tuple) and all(isinstance(y, ast.Tuple) and len(y.elts) == len(lp.target.elts) for y in yields):
+            for i, t in enumerate(lp.target.elts):
+                if isinstance(t, ast.Name):
+                    if all(isinstance(y.elts[i], ast.Name) and y.elts[i].id in gp for y in yields):
+                        path_names.add(t.id)
+                    if all(isinstance(y.elts[i], ast.Name) and y.elts[i].id in gm for y in yields):
+                        method_names.add(t.id)
+        elif isinstance(lp.target, ast.Name):
+            if all(isinstance(y, ast.Name) and y.id in gp for y in yields):
+                path_names.add(lp.target.id)
+            if all(isinstance(y, ast.Name) and y.id in gm for y in yields):
+                method_names.add(lp.target.id)
+    return path_names, method_names
+
+
+def _unlabelled_endpoint_errors(ix: Any, fd: Any, cfgs: dict[str, CFG]) -> tuple[list[str], int]:
+    """(errors attached to a collection's parse_errors whose header was not computed from the method and the path, number of attachments).
+    Method and path are found by role: the path is the key the loop over the path items yields, the method is the loop variable that
+    selects the operation from the path item (getattr)."""
+    path_names, method_names = _operation_roles(ix, fd)
 
     def labelled(v: ast.AST) -> bool:
         behind = _text_sources(v, fd.node)
@@ -1330,6 +1660,31 @@ def document_loops(ix: Any) -> dict[Any, dict[ast.For, str]]:
     return out
 
 
+def _error_class_names(f: Any) -> set[str]:
+    """parameters of f that hold an error class: declared `type[E]` / `Type[E]` with E one of the error classes, or a type variable
+    of the module whose bound is one"""
+    out: set[str] = set()
+    for x in f.params:
+        ann = x.annotation
+        if isinstance(ann, ast.Constant) and isinstance(ann.value, str):
+            try:
+                ann = ast.parse(ann.value, mode="eval").body
+            except SyntaxError:
+                continue
+        if not (isinstance(ann, ast.Subscript) and norm(ann.value).rsplit(".", 1)[-1] in ("type", "Type")):
+            continue
+        e = ann.slice
+        if isinstance(e, ast.Name) and e.id in f.module.variables:
+            tv = f.module.variables[e.id]
+            if isinstance(tv, ast.Call) and call_name(tv).rsplit(".", 1)[-1] == "TypeVar":
+                e = next((k.value for k in tv.keywords if k.arg == "bound"), e)
+                if isinstance(e, ast.Constant) and isinstance(e.value, str):
+                    e = ast.Name(id=e.value.rsplit(".", 1)[-1], ctx=ast.Load())
+        if (dotted_name(e) or "").rsplit(".", 1)[-1] in ERROR_CLASSES:
+            out.add(x.arg)
+    return out
+
+
 def _is_error_type(t: ast.AST) -> bool:
     parts = t.elts if isinstance(t, ast.Tuple) else [t]
     return bool(parts) and all((dotted_name(x) or "").rsplit(".", 1)[-1] in ERROR_CLASSES for x in parts)
@@ -1421,6 +1776,11 @@ class _Iteration:
         self.loops = loops
         self.errs = error_names(f.node)
         self.lc = Locals(f.node)
+        # names that denote an error class: parameters declared `type[E]`, E an error class or a type variable bound to one -
+        # calling such a name constructs an error, isinstance(x, <such a name>) asks whether x is one
+        self.err_classes = _error_class_names(f)
+        self.errs |= {n.args[0].id for n in _own_walk(f.node) if isinstance(n, ast.Call) and call_name(n) == "isinstance" and len(n.args) == 2
+                      and isinstance(n.args[0], ast.Name) and isinstance(n.args[1], ast.Name) and n.args[1].id in self.err_classes}
         # collections an item is recorded into, one record each: a local bound to a comprehension of setdefault(...) results
         self.fan_out = set(self.lc.bound_from(lambda v: ".setdefault(" in v and v.startswith("["), "assign"))
         self.ends: dict[int, tuple[ast.AST, set[_S]]] = {}
@@ -1580,8 +1940,10 @@ class _Iteration:
             return s
         return s.but(err=s.err - names, ok=s.ok - names, none=s.none - names, errl=s.errl - names)
 
-    def _is_error_value(self, e: ast.AST, s: _S) -> bool:
+    def _is_error_value(self, e: ast.AST, s: _S, _depth: int = 2) -> bool:
         if constructs_error(e):
+            return True
+        if isinstance(e, ast.Call) and isinstance(e.func, ast.Name) and e.func.id in self.err_classes:
             return True
         if isinstance(e, ast.Call):
             # the result of a private helper that returns nothing but errors it builds, whether or not its signature says so
@@ -1591,9 +1953,16 @@ class _Iteration:
                 return True
         if isinstance(e, ast.Name):
             # known to hold an error on this path, or somewhere in the function and not known otherwise here
-            return e.id in s.err or (e.id in self.errs and e.id not in s.ok)
+            if e.id in s.err or (e.id in self.errs and e.id not in s.ok):
+                return True
+            # a record built from such an error (a tuple, the result of a constructor that is handed it): recording it records the error
+            ds = [d for d in self.lc.defs.get(e.id, []) if not isinstance(d[1], ast.comprehension)]  # a comprehension's variable is its own
+            return _depth > 0 and bool(ds) and all(
+                k == "assign" and isinstance(v, (ast.Call, ast.Tuple)) and any(
+                    isinstance(x, ast.Name) and x.id != e.id and self._is_error_value(x, s, _depth - 1)
+                    for x in (v.elts if isinstance(v, ast.Tuple) else [*v.args, *[kw.value for kw in v.keywords]])) for k, _, v in ds)
         if isinstance(e, ast.Tuple):
-            return any(isinstance(x, ast.Name) and self._is_error_value(x, s) for x in e.elts)
+            return any(isinstance(x, ast.Name) and self._is_error_value(x, s, _depth) for x in e.elts)
         return False
 
     def _outlives(self, recv: ast.AST) -> bool:
@@ -1684,7 +2053,7 @@ class _Iteration:
         if isinstance(test, ast.Call) and call_name(test) == "isinstance" and len(test.args) == 2 and isinstance(test.args[0], ast.Name):
             n = test.args[0].id
             parts = test.args[1].elts if isinstance(test.args[1], ast.Tuple) else [test.args[1]]
-            is_err = [(dotted_name(x) or "").rsplit(".", 1)[-1] in ERROR_CLASSES for x in parts]
+            is_err = [(dotted_name(x) or "").rsplit(".", 1)[-1] in ERROR_CLASSES or (isinstance(x, ast.Name) and x.id in self.err_classes) for x in parts]
             if all(is_err):
                 if want:
                     if n in s.ok or n in s.none:
@@ -1721,18 +2090,45 @@ def _innermost_if(loop: ast.AST, st: ast.AST) -> ast.If | None:
     return best
 
 
-def _nonempty(e: ast.expr, known: set[str] | None = None) -> bool:
+def _nonempty(e: ast.expr, known: set[str] | None = None, ix: Any = None, f: Any = None, depth: int = 3) -> bool:
+    """the list e is provably non-empty: a non-empty display, `X or <non-empty>`, an unfiltered comprehension over a non-empty list,
+    a prefix `X[:n]` (n >= 1) of a non-empty list, either arm of a conditional expression, a name in `known`; and - inside a private
+    helper f delegates to (ix, f given) - a local all of whose bindings are non-empty, and the result of such a helper when every
+    `return` of it is"""
     known = known or set()
     if isinstance(e, (ast.List, ast.Tuple)):
         return len(e.elts) > 0
     if isinstance(e, ast.BoolOp) and isinstance(e.op, ast.Or):
-        return _nonempty(e.values[-1], known)
+        return _nonempty(e.values[-1], known, ix, f, depth)
+    if isinstance(e, ast.IfExp):
+        return _nonempty(e.body, known, ix, f, depth) and _nonempty(e.orelse, known, ix, f, depth)
     if isinstance(e, ast.ListComp):
-        return len(e.generators) == 1 and not e.generators[0].ifs and _nonempty(e.generators[0].iter, known)
+        return len(e.generators) == 1 and not e.generators[0].ifs and _nonempty(e.generators[0].iter, known, ix, f, depth)
     if isinstance(e, ast.Name):
         return e.id in known
     if isinstance(e, ast.Subscript) and isinstance(e.slice, ast.Slice):
         up = e.slice.upper
         lo = e.slice.lower
-        return _nonempty(e.value, known) and lo is None and isinstance(up, ast.Constant) and isinstance(up.value, int) and up.value >= 1
+        return _nonempty(e.value, known, ix, f, depth) and lo is None and isinstance(up, ast.Constant) and isinstance(up.value, int) and up.value >= 1
+    if isinstance(e, ast.Call) and ix is not None and f is not None and depth > 0:
+        g = {h.name: h for h in region(ix, f, depth=1) if h is not f}.get(call_name(e).rsplit(".", 1)[-1])
+        if g is None or any(isinstance(y, (ast.Yield, ast.YieldFrom)) for y in _own_walk(g.node)):
+            return False
+        rets = [r for r in _own_walk(g.node) if isinstance(r, ast.Return)]
+        return bool(rets) and all(r.value is not None and _nonempty(r.value, _nonempty_locals(ix, g, depth - 1), ix, g, depth - 1) for r in rets)
     return False
+
+
+def _nonempty_locals(ix: Any, g: Any, depth: int) -> set[str]:
+    """the locals of g that hold a non-empty list whenever they are bound: every binding is an assignment of a non-empty list, at
+    least one of them not computed from the name itself (`xs = xs[:1]` keeps what `xs = [..]` established)"""
+    lc = Locals(g.node)
+    out: set[str] = set()
+    for name, ds in lc.defs.items():
+        if not ds or any(k != "assign" or v is None for k, _, v in ds):
+            continue
+        base = [v for _, _, v in ds if name not in names_in(v)]
+        rest = [v for _, _, v in ds if name in names_in(v)]
+        if base and all(_nonempty(v, set(), ix, g, depth) for v in base) and all(_nonempty(v, {name}, ix, g, depth) for v in rest):
+            out.add(name)
+    return out
